@@ -336,6 +336,14 @@ def gen_inputs(tier, rnd):
                     for d, items in ((desc, [[ord(a), ord(b)]]), ("tab, " + desc if not first_upper else "TAB, " + desc, [[9, 9], [ord(a), ord(b)]]),
                                      (("0x1f, " if not first_upper else "0X1F, ") + desc, [[31, 31], [ord(a), ord(b)]])):
                         yield {"kind": "range", "desc": d, "probes": probes_for(items), "den": items}
+    # quoted characters that Unicode normalisation or case folding would replace by another character: a quoted limit
+    # denotes the code point that is written, nothing else
+    for code in (0x212A, 0x212B, 0x2126, 0x2000, 0x2001, 0x037E, 0x0340, 0x0387, 0x2329, 0xF900, 0x2F800, 0x0130, 0x00DF, 0x1E9E, 0x01C5, 0xFB01):
+        ch = chr(code)
+        for sep in SEPS:
+            for desc, items in (("'%s'" % ch, [[code, code]]), ('"%s"%s' % (ch, sep), [[code, None]]), ("%s'%s'" % (sep, ch), [[None, code]]),
+                                ("1%s9, '%s'" % (sep, ch), [[1, 9], [code, code]])):
+                yield {"kind": "range", "desc": desc, "probes": probes_for(items), "den": items}
     # malformed stream
     for m in MALFORMED:
         yield {"kind": "range", "desc": m, "probes": [0, 1, 65]}
